@@ -698,7 +698,7 @@ the gate opens only at quiescence; afterwards a fresh local client issues add + 
             "caller_cut_its_link_mid_call",
             "caller_link_stalled_mid_call",
             "probe_calls_served_afterwards",
-            "serve_ended_by_oversize_reply",
+            "reply_error_reported_at_end_of_serving",
             "serve_ended_after_clients_dropped",
         ],
         real_components: "code generated by remoc::rtc::remote (clients of two trait versions, Server / ServerRefMut / ServerSharedMut), dispatch with reply_tx.closed() race, \
